@@ -574,9 +574,20 @@ impl<'a> Peripheral<'a> {
             }
             PeripheralState::DataExchange | PeripheralState::PreDataExchange => {
                 if self.diag_in_flight {
-                    if self.handle_diagnostics_response(fdl, &telegram).is_some() {
+                    if let Some(diag) = self.handle_diagnostics_response(fdl, &telegram) {
+                        let parameters_required =
+                            diag.flags.contains(DiagnosticFlags::PARAMETER_REQUIRED);
                         self.retry_count = 0;
                         self.diag_needed = false;
+                        if parameters_required {
+                            // The peripheral lost its parameters (power cycle, watchdog, ...).
+                            // Restart the bring-up instead of continuing with data exchange.
+                            log::warn!(
+                                "Peripheral #{} wants parameters during data exchange, reparameterizing...",
+                                self.address
+                            );
+                            self.state = PeripheralState::WaitForParam;
+                        }
                         Some(PeripheralEvent::Diagnostics)
                     } else {
                         None
